@@ -1143,3 +1143,178 @@ func (c *C) funcArgBindings() (map[*ssa.Parameter][]*ssa.Function, map[*ssa.Func
 	}
 	return c.fab, c.fabArgOnly
 }
+
+// R22o: conditional options are consulted before anything is changed.
+var rR22o = RuleRef{Name: "R22o", Doc: "a command with NX/XX/GT/LT conditions changes state only where the condition was consulted: in an executor that compares an option argument with those names, every keyspace write and every deadline change lies on paths that have tested the option (a shortcut placed before the option switch applies the command whatever the condition says)", Run: func(c *C) {
+	optNames := map[string]bool{"nx": true, "xx": true, "gt": true, "lt": true}
+	setTTL, delTTL := c.P.Func("memdb", "MemDb.SetTTL"), c.P.Func("memdb", "MemDb.DelTTL")
+	n := 0
+	for name, fn := range c.Facts.Executors {
+		found := map[string]bool{}
+		loops := naturalLoops(fn)
+		inLoop := false
+		for _, b := range fn.Blocks {
+			for _, in := range b.Instrs {
+				if bo, ok := in.(*ssa.BinOp); ok && (bo.Op == token.EQL || bo.Op == token.NEQ) {
+					for _, side := range []ssa.Value{bo.X, bo.Y} {
+						if s, ok := constString(side); ok && optNames[s] {
+							found[s] = true
+							for _, body := range loops {
+								if body[b] {
+									inLoop = true
+								}
+							}
+						}
+					}
+				}
+			}
+		}
+		// executors that scan a list of option words in a loop and remember them in flags decide elsewhere (their
+		// flag tests are the subject of R22/R27); this rule is about a single option word decided on the spot
+		if len(found) < 2 || inLoop {
+			continue
+		}
+		// every comparison of the option value (the thing compared with "nx", "xx", ...) with any constant counts
+		optVals := map[ssa.Value]bool{}
+		for _, b := range fn.Blocks {
+			for _, in := range b.Instrs {
+				if bo, ok := in.(*ssa.BinOp); ok && (bo.Op == token.EQL || bo.Op == token.NEQ) {
+					if s, ok := constString(bo.Y); ok && optNames[s] {
+						optVals[bo.X] = true
+					}
+					if s, ok := constString(bo.X); ok && optNames[s] {
+						optVals[bo.Y] = true
+					}
+				}
+			}
+		}
+		consultNames := map[string]bool{}
+		for _, b := range fn.Blocks {
+			for _, in := range b.Instrs {
+				if bo, ok := in.(*ssa.BinOp); ok && (bo.Op == token.EQL || bo.Op == token.NEQ) {
+					_, cx := constString(bo.X)
+					_, cy := constString(bo.Y)
+					if (optVals[bo.X] && cy) || (optVals[bo.Y] && cx) {
+						if nm, _ := condName(bo); nm != "" {
+							consultNames[nm] = true
+						}
+					}
+				}
+			}
+		}
+		of := c.orderFlow(fn, nil, true, "T|cmp:*", "F|cmp:*")
+		ord := 0
+		for _, b := range fn.Blocks {
+			for _, in := range b.Instrs {
+				call, ok := in.(*ssa.Call)
+				if !ok {
+					continue
+				}
+				what := ""
+				if a := c.keyspaceAccess(call); a != nil && a.Write {
+					what = a.Map + "." + a.Method
+				} else if cf := callee(call); cf != nil && (cf == setTTL || cf == delTTL) {
+					what = cf.Name()
+				}
+				if what == "" {
+					continue
+				}
+				n++
+				ord++
+				states, live := of.States(in)
+				good := live
+				for _, st := range states {
+					consulted := false
+					for f := range st {
+						if len(f) > 2 && consultNames[f[2:]] {
+							consulted = true
+						}
+					}
+					if !consulted {
+						good = false
+					}
+				}
+				c.Add("R22o", fnName(fn), fmt.Sprintf("%s: %s (#%d) happens only after the option was consulted", strings.ToUpper(name), what, ord), call.Pos(), good, "a path reaches this change without having compared the option argument with any of its names")
+			}
+		}
+	}
+	c.Count("R22o_conditional_changes", n) // no floor: the shape this rule speaks about may legitimately not occur
+}}
+
+// R11m: an empty bulk string is a legal argument.
+var rR11m = RuleRef{Name: "R11m", Doc: "a bulk body may be empty: a protocol error that the parser reports because the line it read is shorter than some minimum is reported only on paths that are not reading a bulk body (the state's multiLine flag tested false); the body of `$0` is just the two terminator bytes", Run: func(c *C) {
+	parse := c.P.Func("resp", "parse")
+	if parse == nil {
+		c.Undecided("R11m", "anchor resp.parse")
+		return
+	}
+	isErrReport := func(v ssa.Value) bool {
+		al, ok := v.(*ssa.Alloc)
+		if !ok || al.Referrers() == nil || namedOf(al.Type()) != "ParsedRes" {
+			return false
+		}
+		for _, r := range *al.Referrers() {
+			if fa, ok := r.(*ssa.FieldAddr); ok && fieldName(fa) == "Err" && fa.Referrers() != nil {
+				for _, rr := range *fa.Referrers() {
+					if st, ok := rr.(*ssa.Store); ok && !isNilConst(st.Val) {
+						if u, ok := st.Val.(*ssa.UnOp); ok {
+							if g, ok := u.X.(*ssa.Global); ok && g.Name() == "EOF" {
+								return false
+							}
+						}
+						return true
+					}
+				}
+			}
+		}
+		return false
+	}
+	n := 0
+	seen := map[*ssa.Function]bool{}
+	for _, fn := range append([]*ssa.Function{parse}, helperScope(parse, 2)...) {
+		if pkgRel(fn) != "resp" || seen[fn] {
+			continue
+		}
+		seen[fn] = true
+		var of *OrderFlow
+		for _, b := range fn.Blocks {
+			for _, in := range b.Instrs {
+				report := false
+				switch x := in.(type) {
+				case *ssa.Send:
+					report = isErrReport(x.X)
+				case *ssa.Call:
+					for _, a := range x.Call.Args {
+						if isErrReport(a) {
+							report = true
+						}
+					}
+				}
+				if !report {
+					continue
+				}
+				if of == nil {
+					of = c.orderFlow(fn, nil, true, "T|cmp:len(*", "F|field:multiLine")
+				}
+				n++
+				states, live := of.States(in)
+				good := true
+				if live {
+					for _, st := range states {
+						short := false
+						for f := range st {
+							if strings.HasPrefix(f, "T|cmp:len(") && strings.Contains(f, "<") {
+								short = true
+							}
+						}
+						if short && !st["F|field:multiLine"] {
+							good = false
+						}
+					}
+				}
+				c.Add("R11m", fnName(fn), fmt.Sprintf("error report #%d for a too-short line is not made while a bulk body is being read", n), in.Pos(), good, "a minimum-length test rejects what was read without regard to the multiLine state: an empty bulk string ($0) is refused")
+			}
+		}
+	}
+	c.Count("R11m_error_reports", n)
+}}
